@@ -164,6 +164,30 @@ def _check_timeout_guards_in(mod, fn, dl, ET, rep, rid, extra=()):
             rep.violate(Violation(rid, _w(d, at), msg, site='nsync_mu_semaphore_p_with_deadline/etimedout-guards'))
     return len(defs)
 
+def check_v_wakes(ctx, rep, rid):
+    """the post operation increments the count and issues FUTEX_WAKE on every path on which a sleeper can be blocked - in the default and in the
+    release (-DNDEBUG) configuration"""
+    from ..symex import is_expr, eval_tree
+    n = 0
+    for cfg, tag in (('C', ''), ('CN', ' [NDEBUG build]')):
+        mod = ctx.mod(cfg)
+        eng, exits = futexmodel.analyse(ctx, cfg)['nsync_mu_semaphore_v']
+        for x in exits:
+            n += 1
+            old = x.ghost.get(('inc_old',))
+            may_be_zero = True
+            if is_expr(old):
+                may_be_zero = any(eval_tree(old[2], d) == 0 for d in x.S.get(old[1], ()))
+            elif isinstance(old, tuple) and old[0] == 'const':
+                may_be_zero = old[1] == 0
+            ok = x.ghost.get(('flag', 'inc')) == 1 and (x.ghost.get(('flag', 'woke')) == 1 or not may_be_zero)
+            rep.instance(rid, 'semaphore V exit%s: incremented=%s woke=%s' % (tag, x.ghost.get(('flag', 'inc')), x.ghost.get(('flag', 'woke')))); rep.oblig(rid, ok)
+            if not ok:
+                rep.violate(Violation(rid, _where_fn(mod.func('nsync_mu_semaphore_v')), 'the semaphore post can return without %s%s: a waiter blocked in FUTEX_WAIT is not resumed - the mutex is released and handed to nobody'
+                                      % ('incrementing the count' if x.ghost.get(('flag', 'inc')) != 1 else 'issuing FUTEX_WAKE', tag), site='nsync_mu_semaphore_v/post-incomplete'))
+    if n == 0:
+        raise AnalysisBroken('%s: nsync_mu_semaphore_v has no exit' % rid)
+
 def check_cas_retry_reloads(mod, rep, rid):
     from ..cfg import paths_avoiding
     wrappers = util.cas_wrappers(mod)
@@ -196,7 +220,10 @@ def run(ctx, rep):
     rep.rule('C12.R4', 'V: CAS +1 then FUTEX_WAKE on every path')
     rep.rule('C12.R5', 'timeout pointer NULL exactly when the deadline is nsync_time_no_deadline')
     res = futexmodel.analyse(ctx)
-    for name, (eng, exits) in res.items():
+    # the same protocol obligations on the release configuration (-DNDEBUG): whatever the code puts inside <assert.h> assertions - a system call,
+    # say - is gone there
+    resN = futexmodel.analyse(ctx, 'CN')
+    for cfgtag, name, (eng, exits) in [('', n, v) for n, v in res.items()] + [(' [NDEBUG build]', n, v) for n, v in resN.items()]:
         rep.functions.update(f for r in eng.records for f in r.stack)
         isP = name in ('nsync_mu_semaphore_p', 'nsync_mu_semaphore_p_with_deadline')
         for r in eng.records:
@@ -214,14 +241,14 @@ def run(ctx, rep):
                 rep.instance('C12.R2', '%s %s in %s: %s' % (r.how, r.ord, name, sorted(set(r.pairs or []))[:4]))
                 rep.oblig('C12.R2', ok)
                 if not ok:
-                    rep.violate(Violation('C12.R2', s.where(), msg, site='%s/count-write' % name))
+                    rep.violate(Violation('C12.R2', s.where(), msg + cfgtag, site='%s/count-write' % name))
             elif r.kind == 'futex' and r.fkind == 'wait':
                 ok = r.vals is not None and r.vals <= {0}
                 rep.instance('C12.R1', '%s: FUTEX_WAIT expected value %s at %s' % (name, sorted(r.vals) if r.vals is not None else 'unknown', r.where()))
                 rep.oblig('C12.R1', ok)
                 if not ok:
                     rep.violate(Violation('C12.R1', r.where(), '%s sleeps in FUTEX_WAIT expecting %s instead of the observed count 0: with a non-zero count the kernel blocks although posts are pending, or the wait never blocks'
-                                          % (name, sorted(r.vals) if r.vals is not None else 'an unknown value'), site='%s/futex-wait-value' % name))
+                                          % (name, sorted(r.vals) if r.vals is not None else 'an unknown value') + cfgtag, site='%s/futex-wait-value' % name))
         for x in exits:
             rv = x.trace[0] if x.trace else None
             if isP:
@@ -231,7 +258,7 @@ def run(ctx, rep):
                     rep.instance('C12.R2', '%s: successful return, decremented=%s' % (name, ok))
                     rep.oblig('C12.R2', ok)
                     if not ok:
-                        rep.violate(Violation('C12.R2', _where_fn(mod.func(name)), '%s can return success without having decremented the count by a successful CAS (a wait would succeed without a post)' % name,
+                        rep.violate(Violation('C12.R2', _where_fn(mod.func(name)), '%s can return success without having decremented the count by a successful CAS (a wait would succeed without a post)' % name + cfgtag,
                                               site='%s/success-without-cas' % name))
                 elif not isinstance(rv, int):
                     # a computed result the interpreter cannot evaluate (errno handed through, say): whether it is a failure on this path is not
@@ -244,7 +271,7 @@ def run(ctx, rep):
                     rep.instance('C12.R2', '%s: return %r, count decremented on this path: %s' % (name, rv, took))
                     rep.oblig('C12.R2', not took)
                     if took:
-                        rep.violate(Violation('C12.R2', _where_fn(mod.func(name)), '%s can return %r after having decremented the count by a successful CAS: the post is consumed but the wait is reported as timed out, so the post is lost' % (name, rv),
+                        rep.violate(Violation('C12.R2', _where_fn(mod.func(name)), '%s can return %r after having decremented the count by a successful CAS: the post is consumed but the wait is reported as timed out, so the post is lost' % (name, rv) + cfgtag,
                                               site='%s/failure-after-cas' % name))
             elif name == 'nsync_mu_semaphore_v':
                 old = x.ghost.get(('inc_old',))
@@ -256,11 +283,11 @@ def run(ctx, rep):
                     may_be_zero = old[1] == 0
                 # a sleeper can be blocked only while the count is 0: the wake-up is owed whenever the post found the count at 0
                 ok = x.ghost.get(('flag', 'inc')) == 1 and (x.ghost.get(('flag', 'woke')) == 1 or not may_be_zero)
-                rep.instance('C12.R4', 'V exit: incremented=%s woke=%s' % (x.ghost.get(('flag', 'inc')), x.ghost.get(('flag', 'woke'))))
+                rep.instance('C12.R4', 'V exit%s: incremented=%s woke=%s' % (cfgtag, x.ghost.get(('flag', 'inc')), x.ghost.get(('flag', 'woke'))))
                 rep.oblig('C12.R4', ok)
                 if not ok:
                     rep.violate(Violation('C12.R4', _where_fn(mod.func(name)), 'V can return without %s: a sleeper blocked in FUTEX_WAIT is not resumed'
-                                          % ('incrementing the count' if x.ghost.get(('flag', 'inc')) != 1 else 'issuing FUTEX_WAKE'), site='%s/post-incomplete' % name))
+                                          % ('incrementing the count' if x.ghost.get(('flag', 'inc')) != 1 else 'issuing FUTEX_WAKE') + cfgtag, site='%s/post-incomplete' % name))
     check_timeout_guards(mod, K, rep, 'C12.R3')
     rep.rule('C12.R6', 'a failed CAS on the count is retried only after re-loading the count')
     check_cas_retry_reloads(mod, rep, 'C12.R6')
@@ -270,7 +297,10 @@ def run(ctx, rep):
     # R5: NULL timeout <=> no_deadline - decided on the interpretation: the deadline is symbolic over representatives, nsync_time_cmp is
     # interpreted in place, so at each kernel wait the set of deadlines that reach it is known
     eng, exits = res['nsync_mu_semaphore_p_with_deadline']
-    MAXS, MAXN = (1 << 63) - 1, 999999999
+    nd = futexmodel.no_deadline_const(mod)
+    if nd is None:
+        raise AnalysisBroken('C12.R5: the constant nsync_time_no_deadline was not found')
+    MAXS, MAXN = nd          # (what value the constant should have is C18.R4's business)
     found = False
     for r in eng.records:
         if r.kind == 'futex' and r.fkind == 'wait' and r.ts == 'NULL':
